@@ -37,6 +37,14 @@ class JaxDiscreteField(object):
             return self.value + other.value
         return self.value + other
 
+    def __radd__(self, other):
+        if isinstance(other, JaxDiscreteField):
+            return other.value + self.value
+        return other + self.value
+
+    def __neg__(self):
+        return -self.value
+
     def __sub__(self, other):
         if isinstance(other, JaxDiscreteField):
             return self.value - other.value
